@@ -32,11 +32,26 @@ let write_replay (d : drv) (kind : string) (details : string) : string =
 (* run one case; a mismatch is recorded with the script since the last "new" as replay *)
 let run_case (s : sess) (f : unit -> unit) =
   bump "cases";
-  try f () with
-  | Mismatch (kind, details) ->
+  let saved = match !the_rng with Some r -> Some r.st | None -> None in
+  let record kind details =
     let path = write_replay s.d kind details in
     violations := (kind, details, path) :: !violations;
-    bump ("violations_" ^ kind)
+    bump ("violations_" ^ kind) in
+  try f () with
+  | Mismatch ("model", details) when not !model_off ->
+    record "model" details;
+    (* the C++ left the model without (yet) leaving the specification: run the same case again with the same random
+       choices, following the specification only, to see whether the divergence grows into a failing input *)
+    (match !the_rng, saved with Some r, Some st -> r.st <- st | _ -> ());
+    model_off := true;
+    (try f () with
+     | Mismatch (kind, d) -> if kind <> "model" then record kind d
+     | Driver_died cmd ->
+       let path = write_replay s.d "crash" ("driver died (abort, sanitizer report or crash) executing: " ^ cmd) in
+       violations := ("crash", "driver died executing: " ^ cmd, path) :: !violations;
+       bump "violations_crash"; model_off := false; raise Exit);
+    model_off := false
+  | Mismatch (kind, details) -> record kind details
   | Driver_died cmd ->
     let path = write_replay s.d "crash" ("driver died (abort, sanitizer report or crash) executing: " ^ cmd) in
     violations := ("crash", "driver died executing: " ^ cmd, path) :: !violations;
@@ -430,17 +445,31 @@ let run_c17 (s : sess) (r : rng) =
           if i raw <> int_of_n (pack_move std_layout m) then fail_model "packed value %s differs from the model's %d" raw (int_of_n (pack_move std_layout m));
           bump "evaluations"
         | _ -> raise (Mismatch ("crash", "unparsable mv line: " ^ line)) in
+      (* the second move of an equality query: equal, or different in exactly one field — by +1, by a random other value,
+         or by ONE BIT of that field (a comparison that drops a bit of one field is then seen) — or unrelated *)
+      let vary v n =
+        match rand r 3 with
+        | 0 -> (v + 1) mod n
+        | 1 -> let w = rand r (n - 1) in if w >= v then w + 1 else w
+        | _ -> let rec go k = if k = 0 then (v + 1) mod n else let w = v lxor (1 lsl (rand r 6)) in if w < n && w <> v then w else go (k - 1) in go 8 in
       let other t f to_ p c pr =
         match rand r 8 with
         | 0 -> (t, f, to_, p, c, pr)
-        | 1 -> ((t + 1) mod 8, f, to_, p, c, pr) | 2 -> (t, (f + 1) mod 64, to_, p, c, pr) | 3 -> (t, f, (to_ + 1) mod 64, p, c, pr)
-        | 4 -> (t, f, to_, (p + 1) mod 7, c, pr) | 5 -> (t, f, to_, p, (c + 1) mod 7, pr) | 6 -> (t, f, to_, p, c, (pr + 1) mod 7)
+        | 1 -> (vary t 8, f, to_, p, c, pr) | 2 -> (t, vary f 64, to_, p, c, pr) | 3 -> (t, f, vary to_ 64, p, c, pr)
+        | 4 -> (t, f, to_, vary p 7, c, pr) | 5 -> (t, f, to_, p, vary c 7, pr) | 6 -> (t, f, to_, p, c, vary pr 7)
         | _ -> (rand r 8, rand r 64, rand r 64, rand r 7, rand r 7, rand r 7) in
+      (* every single-bit change of every field of one move *)
+      let all_bitflips t f to_ p c pr =
+        let fl v n k = List.filter_map (fun b -> let w = v lxor (1 lsl b) in if w < n then Some (k w) else None) [ 0; 1; 2; 3; 4; 5 ] in
+        fl t 8 (fun w -> (w, f, to_, p, c, pr)) @ fl f 64 (fun w -> (t, w, to_, p, c, pr)) @ fl to_ 64 (fun w -> (t, f, w, p, c, pr))
+        @ fl p 7 (fun w -> (t, f, to_, w, c, pr)) @ fl c 7 (fun w -> (t, f, to_, p, w, pr)) @ fl pr 7 (fun w -> (t, f, to_, p, c, w)) in
       if quick then begin
         (* boundaries of every field crossed with each other, then random combinations *)
         let bs n = [ 0; 1; n / 2; n - 2; n - 1 ] in
         List.iter (fun t -> List.iter (fun f -> List.iter (fun to_ -> List.iter (fun p -> List.iter (fun c -> List.iter (fun pr ->
-            one t f to_ p c pr (other t f to_ p c pr)) [ 0; 3; 6 ]) [ 0; 3; 6 ]) [ 0; 3; 6 ]) (bs 64)) (bs 64)) [ 0; 1; 2; 3; 4; 5; 6; 7 ];
+            one t f to_ p c pr (other t f to_ p c pr);
+            if (t + f + to_ + p + c + pr) mod !nshards = !shard then List.iter (one t f to_ p c pr) (all_bitflips t f to_ p c pr))
+            [ 0; 3; 6 ]) [ 0; 3; 6 ]) [ 0; 3; 6 ]) (bs 64)) (bs 64)) [ 0; 1; 2; 3; 4; 5; 6; 7 ];
         let n = (if !budget > 0 then !budget else 500_000) / !nshards in
         for _ = 1 to n do
           let t, f, to_, p, c, pr = (rand r 8, rand r 64, rand r 64, rand r 7, rand r 7, rand r 7) in
@@ -451,7 +480,8 @@ let run_c17 (s : sess) (r : rng) =
         for t = 0 to 7 do for f = 0 to 63 do
             if (t * 64 + f) mod !nshards = !shard then
               for to_ = 0 to 63 do for p = 0 to 6 do for c = 0 to 6 do for pr = 0 to 6 do
-                        one t f to_ p c pr (other t f to_ p c pr); bump "distinct_nontrivial"
+                        one t f to_ p c pr (other t f to_ p c pr); bump "distinct_nontrivial";
+                        if (to_ + p + c + pr) land 15 = 0 then List.iter (one t f to_ p c pr) (all_bitflips t f to_ p c pr)
                       done done done done
           done done
       end;
@@ -567,6 +597,12 @@ let run_positions (s : sess) (r : rng) (corpus : (bool * string) list) (pl : pla
     ?(extra : (bool * spos * string) list = []) () =
   let n = (if !budget > 0 then !budget else if !tier = "quick" then quick_n else thorough_n) / !nshards in
   let starts = extra @ start_positions r corpus n in
+  (* one start in eight gets a half-move clock at the boundary of an 8-, 16- or 32-bit counter (clocks are not part of
+     legal-consistency): a clock stored too narrowly anywhere — history record, FEN field, undo — shows within a few plies *)
+  let starts = List.map (fun (d, p, tag) ->
+      if p.s_ep = None && chance r 1 8 then
+        (d, { p with s_half = n_of_int [| 254; 255; 256; 65534; 65535; 65536; 4294967294; 4294967295 |].(rand r 8) }, tag)
+      else (d, p, tag)) starts in
   List.iter (fun (d, p, tag) ->
       run_case s (fun () ->
           start s d p;
@@ -588,6 +624,7 @@ let () =
   let keys = keys_of_driver d in
   let s = { d; keys; dfrc = false; stack = []; ops = 0 } in
   let r = mk_rng (!seed * 1000003 + !shard * 7919 + Hashtbl.hash !prop) in
+  the_rng := Some r;
   let corpus = if !corpus_path <> "" then usable_corpus (read_corpus !corpus_path) else [] in
   Special.violations_hook := run_case;
   (try
